@@ -687,7 +687,17 @@ def stage_trees(ctx):
         if gpy is None or rec.ill:
             nskip_guess += 1
         else:
-            gi = float(obj.guess)
+            try:
+                gi = float(obj.guess)
+            except (ValueError, ZeroDivisionError, OverflowError):
+                if k % 3 != 0:
+                    raise
+                # integer-typed bases: numpy's INTEGER arithmetic refuses some operations the real-number reference defines
+                # (np.int64(4) ** -1 raises "Integers to negative integer powers are not allowed"): the operation applied to
+                # the base guess is itself undefined there - no demand
+                nskip_guess += 1
+                ctx.count("tree:integer-typed:guess-undefined-in-integer-arithmetic")
+                continue
             ctx.explored += 1
             if abs(gi - gpy) > 1e-9 * max(abs(gpy), 1e-300):
                 ctx.violation("tree:guess", "guess of a derived prior != the expression applied to the base guesses",
